@@ -533,7 +533,8 @@ Definition defect_sets : list (list nat) :=
   let all := subsets [1; 2; 3; 4; 5; 6]%nat in
   flat_map (fun n => filter (fun s => (length s =? n)%nat) all) [1; 2; 3; 4; 5; 6]%nat.
 
-Record case := { k_cfg : cfg; k_np : nat; k_bs0 : list cid; k_ops : list op; k_obs : list sobs }.
+(** [k_known]: the numbers of the defects currently listed as known (not repaired) *)
+Record case := { k_known : list nat; k_cfg : cfg; k_np : nat; k_bs0 : list cid; k_ops : list op; k_obs : list sobs }.
 
 (** compact notation of the harness for observations: a peer whose observation did not
     change since the previous step is written [PSame]; [PEq] = both ledger maps agree *)
@@ -565,8 +566,8 @@ Definition W (c p : nat) (b cn s : bool) : want :=
 Definition CFG (l r : nat) (s m : bool) (d : list (peer * cid)) (z : list (cid * nat)) : cfg :=
   {| c_limit := l; c_replace := Z.of_nat r; c_senddh := s; c_maxcid := m; c_deny := d;
      c_sizes := map (fun x => (fst x, Z.of_nat (snd x))) z |}.
-Definition K (g : cfg) (n : nat) (b : list cid) (o : list op) (s : list (list pdelta * list resp)) : case :=
-  {| k_cfg := g; k_np := n; k_bs0 := b; k_ops := o; k_obs := expand_obs [] s |}.
+Definition K (kn : list nat) (g : cfg) (n : nat) (b : list cid) (o : list op) (s : list (list pdelta * list resp)) : case :=
+  {| k_known := kn; k_cfg := g; k_np := n; k_bs0 := b; k_ops := o; k_obs := expand_obs [] s |}.
 
 Definition model_obs (fl : flags) (k : case) : list sobs :=
   run fl (k_cfg k) (init (k_np k) (k_bs0 k)) (k_ops k).
@@ -575,7 +576,11 @@ Definition check_case (k : case) : verdict :=
   let sp := spec_check (k_cfg k) (k_np k) (k_bs0 k) (k_ops k) (k_obs k) in
   if list_eqb sobs_eqb (model_obs flags_off k) (k_obs k) then verdict_of true sp
   else
-    match find (fun s => list_eqb sobs_eqb (model_obs (mkf s) k) (k_obs k)) defect_sets with
+    (* several defect sets may reproduce the same observations: an explanation by defects that are
+       listed as known is preferred; a repaired defect is reported only if no such explanation exists *)
+    let matches := fun s => list_eqb sobs_eqb (model_obs (mkf s) k) (k_obs k) in
+    let only_known := filter (fun s => forallb (fun d => nmem d (k_known k)) s) defect_sets in
+    match (match find matches only_known with Some s => Some s | None => find matches defect_sets end) with
     | Some s =>
         if sp then VOk
         else if spec_check (k_cfg k) (k_np k) (k_bs0 k) (k_ops k) (model_obs flags_off k)
